@@ -124,8 +124,8 @@ CHECKS = {
         ref='DESIGN.md §4 C20'),
     'C07': dict(
         engine='E5 pty session explorer on the real interactive binary with a reference model of job state',
-        technique='exhaustive enumeration of all action sequences enabled in a reference model up to a depth, each replayed on the real interactive binary under a pseudo-terminal with a controlled schedule (gated helpers, awaited conditions instead of sleeps), oracle evaluated after every action',
-        text='All sequences of 4 actions over the reduced alphabet (984) and of 3 actions over the full alphabet (thorough: 4 over the full alphabet, 9.8 k sessions, and 5 over the reduced one) from {launch fg pipeline of 1/2 stages, launch bg pipeline, Ctrl-Z, Ctrl-C, fg <id>, bg <id>, external SIGSTOP / SIGCONT / SIGKILL of a member, release the gate (normal exit), jobs, empty line, not-found and failing command} with <= 2 jobs alive are replayed from a fresh interactive shell on a pty; after every action the driver waits for the condition the model predicts: tcgetpgrp of the terminal = group of the running foreground job, else the shell group; every stage in the group of the first stage; members stopped / running / gone in /proc; the parsed `jobs` listing equals the model (ids, leaders, Stopped/Running), also at the end of every sequence.',
+        technique='exhaustive enumeration of all action sequences enabled in a reference model up to a depth, plus explicit-state breadth-first search over the canonical states of that model (every transition out of every distinct state; thorough: to the fixpoint for the reduced alphabet), each path replayed on the real interactive binary under a pseudo-terminal with a controlled schedule (gated helpers, awaited conditions instead of sleeps), oracle evaluated after every action',
+        text='All sequences of 4 actions over the reduced alphabet (984) and of 3 actions over the full alphabet (thorough: 4 over the full alphabet, 9.8 k sessions, and 5 over the reduced one) from {launch fg pipeline of 1/2 stages, launch bg pipeline, Ctrl-Z, Ctrl-C, fg <id>, bg <id>, external SIGSTOP / SIGCONT / SIGKILL of a member, release the gate (normal exit), jobs, empty line, not-found and failing command} with <= 2 jobs alive, and every transition out of every distinct reference-model state reachable within 6 actions of the reduced alphabet (537 states, 1.9 k transitions; thorough: fixpoint of the reduced alphabet, about 2.2 k states / 15 k transitions, and depth 6 of the full alphabet, 1.5 k states / 9.8 k transitions), are replayed from a fresh interactive shell on a pty; after every action the driver waits for the condition the model predicts: tcgetpgrp of the terminal = group of the running foreground job, else the shell group; every stage in the group of the first stage; members stopped / running / gone in /proc; the parsed `jobs` listing equals the model (ids, leaders, Stopped/Running), also at the end of every sequence.',
         note='Signal delivery is serialised by the driver (simultaneous arrivals are C06); fg/bg always get an explicit id; each condition is awaited at most 5 s.',
         ref='DESIGN.md §4 C07'),
 }
